@@ -115,11 +115,42 @@ def mutate(s, c):
         raise ValueError(m)
 
 
+def scribble(pid, s, c):
+    """A caller owns what it gets back: overwrite DERIVED results in place (values and, where there is one, the
+    direction coordinate).  Nothing the library hands out may be the very object it will hand out - or use - again."""
+    two_d = c["kind"] == "2d"
+    names = {"C01": ["frequency_step", "radian_frequency"] + (["e", "direction_step"] if two_d else []),
+             "C02": (["direction_step", "e", "a1", "b1", "radian_direction"] if two_d else ["frequency_step"]),
+             "C03": ["mean_direction_per_frequency", "mean_spread_per_frequency"] + (["direction_step", "a1", "b1"] if two_d else []),
+             "C04": ["peak_wavenumber", "wavenumber"] + (["e", "direction_step"] if two_d else []),
+             "C07": ["wavenumber", "wavelength", "group_velocity", "radian_frequency"],
+             "C16": ["frequency_step"] + (["direction_step"] if two_d else [])}[pid]
+    for nm in names:
+        try:
+            r = getattr(s, nm)
+            r = r() if callable(r) else r
+            if isinstance(r, xarray.DataArray):
+                r.values[...] = r.values * 0.25 + 1.0
+                if "direction" in r.coords and r.coords["direction"].values.flags.writeable:
+                    r.coords["direction"].values[...] = (r.coords["direction"].values + 180.0) % 360.0 - 180.0
+        except (ValueError, TypeError, AttributeError):
+            pass                                   # read-only results cannot be scribbled on: fine
+
+
 def one_case(c):
     s = build(c)
     if PID == "C16" and "time" in s.dims:
         s = s.isel(time=0)          # one object, kept for all three queries
     before = observe(PID, s, c)
+    if c["mutation"] == "scribble":
+        scribble(PID, s, c)
+        again = observe(PID, s, c)                 # the same object
+        other = build(c)                           # another object on an equal grid, built from scratch
+        if PID == "C16" and "time" in other.dims:
+            other = other.isel(time=0)
+        elsewhere = observe(PID, other, c)
+        shown = again if any(again[k] != before[k] for k in before) else elsewhere
+        return {"reused": shown, "fresh": before, "mutation_changed_something": True}
     mutate(s, c)
     reused = observe(PID, s, c)
     fresh_obj = type(s)(s.dataset.copy(deep=True))
